@@ -561,6 +561,29 @@ func c02Labels(c *Ctx) {
 		nret++
 		v := ret.Results[0]
 		okv := isConstLike(v, 0) || isBufMethod(v, "String") || emptyGuarded(b)
+		// through a local closure that finishes the label: every return of it yields the buffer
+		if ex, isEx := v.(*ssa.Extract); isEx && !okv && ex.Index == 0 {
+			if call, isCall := ex.Tuple.(*ssa.Call); isCall {
+				var g *ssa.Function
+				if mc, ok := call.Call.Value.(*ssa.MakeClosure); ok {
+					g = mc.Fn.(*ssa.Function)
+				} else if cal := call.Call.StaticCallee(); cal != nil && cal.Parent() == fn {
+					g = cal
+				}
+				if g != nil && g.Parent() == fn {
+					all, any := true, false
+					for _, gb := range g.Blocks {
+						if gr, ok := gb.Instrs[len(gb.Instrs)-1].(*ssa.Return); ok && len(gr.Results) > 0 {
+							any = true
+							if !isConstLike(gr.Results[0], 0) && !isBufMethod(gr.Results[0], "String") {
+								all = false
+							}
+						}
+					}
+					okv = all && any
+				}
+			}
+		}
 		if ph, isPhi := v.(*ssa.Phi); isPhi && !okv {
 			okv = true
 			for _, e := range ph.Edges {
@@ -660,8 +683,18 @@ func unicodeEscapeRule(c *Ctx, rule string) {
 					work = append(work, x)
 				}
 			case *ssa.Call:
-				if cal := x.Call.StaticCallee(); cal != nil && cal.Pkg != nil && cal.Pkg.Pkg.Path() == "unicode/utf8" && (cal.Name() == "EncodeRune" || cal.Name() == "AppendRune") {
+				cal := x.Call.StaticCallee()
+				if cal != nil && cal.Pkg != nil && cal.Pkg.Pkg.Path() == "unicode/utf8" && (cal.Name() == "EncodeRune" || cal.Name() == "AppendRune") {
 					encoded++
+				}
+				// handed to a helper of the package: go on with its parameter
+				if cal != nil && inModule(cal) && len(cal.Blocks) > 0 {
+					for ai, a := range x.Call.Args {
+						if a == v && ai < len(cal.Params) && !derived[cal.Params[ai]] {
+							derived[cal.Params[ai]] = true
+							work = append(work, cal.Params[ai])
+						}
+					}
 				}
 			}
 		}
@@ -770,18 +803,44 @@ func c02CommentNewline(c *Ctx) {
 		}
 		return false
 	}
+	// the nearest dominating branch whose condition, with the truth value it has on the edge towards
+	// b, states the given fact (pred is asked about the condition stripped of negations and about
+	// `x != k` as the negation of `x == k`)
 	trueEdgeDominates := func(b *ssa.BasicBlock, pred func(ssa.Value) bool, wantTrue bool) *ssa.BasicBlock {
 		for d := b; d != nil && d.Idom() != nil; d = d.Idom() {
 			p := d.Idom()
 			iff, ok := lastIf(p)
-			if !ok || len(d.Preds) != 1 {
+			if !ok || len(d.Preds) != 1 || p.Succs[0] == p.Succs[1] {
+				continue
+			}
+			cond, want := iff.Cond, wantTrue
+			for {
+				if u, ok := cond.(*ssa.UnOp); ok && u.Op == token.NOT {
+					cond, want = u.X, !want
+					continue
+				}
+				break
+			}
+			// x != k holds iff x == k does not
+			if bo, ok := cond.(*ssa.BinOp); ok && bo.Op == token.NEQ {
+				eq := *bo
+				eq.Op = token.EQL
+				if pred(&eq) {
+					idx := 1
+					if !want {
+						idx = 0
+					}
+					if p.Succs[idx] == d {
+						return p
+					}
+				}
 				continue
 			}
 			idx := 0
-			if !wantTrue {
+			if !want {
 				idx = 1
 			}
-			if p.Succs[idx] == d && pred(iff.Cond) {
+			if p.Succs[idx] == d && pred(cond) {
 				return p
 			}
 		}
@@ -825,7 +884,7 @@ func c02CommentNewline(c *Ctx) {
 		c.Check(testBlk != nil, "layout.filter", FuncName(fn)+":synthetic-newline.last-byte", ret.Pos(), "only for a comment whose last byte is '\\n'",
 			"a synthetic newline is produced for a comment without testing that its last byte is a newline: a /* */ comment inside an item ends the item")
 		if testBlk != nil {
-			c.Check(testBlk.Succs[0] == b, "layout.filter", FuncName(fn)+":synthetic-newline.unconditional", ret.Pos(), "a comment ending in a newline always yields the newline",
+			c.Check(testBlk.Succs[0] == b || testBlk.Succs[1] == b, "layout.filter", FuncName(fn)+":synthetic-newline.unconditional", ret.Pos(), "a comment ending in a newline always yields the newline",
 				"a comment ending in a newline does not always yield a newline token: an item followed by a line comment is not terminated")
 		}
 		c.Check(trueEdgeDominates(b, isIncNL, true) != nil, "layout.filter", FuncName(fn)+":synthetic-newline.mode", ret.Pos(), "only when newlines are significant", "a synthetic newline is produced inside brackets, where newlines are not significant")
